@@ -637,6 +637,10 @@ pub fn cost_families(out: &mut crate::Out, thorough: bool, seed: u64) {
             put(out, "cost-length-overflow", v, true);
         }
     }
+    // deeply nested loops in a covenant as large as a transaction can carry (child process: a stack overflow aborts)
+    for k in if thorough { vec![1000usize, 5000, 20000, 50000, 200000] } else { vec![1000usize, 20000, 60000] } {
+        out.put(deep_record(k));
+    }
     // honest programs for calibration of the cost model
     for _ in 0..200 {
         let ops = gen_typed(&mut r);
@@ -765,4 +769,36 @@ pub fn optable(out: &mut crate::Out) {
         out.put(run_record("optable-crypto", &[bytes5.clone(), Hash(n)], Default::default(), 100));
         out.put(run_record("optable-crypto", &[PushB(vec![0; 32]), Hash(n)], Default::default(), 100));
     }
+}
+
+
+/// Deep nesting: k nested `Loop(0, 65535)` weighed through the public path (from_bytes -> weight) on a thread with a
+/// 2 MiB stack (what a worker thread of a validator has), in a CHILD process, because exhausting the stack aborts the process.
+pub fn deep_child(k: usize) {
+    let mut bytes: Vec<u8> = Vec::with_capacity(5 * k + 3);
+    for _ in 0..k {
+        bytes.extend_from_slice(&[0xb0, 0x00, 0x00, 0xff, 0xff]);
+    }
+    bytes.extend_from_slice(&[0xf2, 0x01, 0x01]);
+    let h = std::thread::Builder::new().stack_size(2 * 1024 * 1024).spawn(move || melvm::covenant_weight_from_bytes(&bytes)).unwrap();
+    match h.join() {
+        Ok(w) => println!("{}", json!({"weight": js::limbs_u128(w)})),
+        Err(_) => println!("{}", json!({"panic": true})),
+    }
+}
+
+pub fn deep_record(k: usize) -> J {
+    let exe = std::env::current_exe().unwrap();
+    let t0 = std::time::Instant::now();
+    let out = std::process::Command::new(exe).args(["deepchild", "--k", &k.to_string()]).output();
+    let ms = t0.elapsed().as_millis() as u64;
+    let (status, weight) = match out {
+        Ok(o) if o.status.success() => {
+            let v: J = serde_json::from_slice(o.stdout.split(|c| *c == b'\n').next().unwrap_or(b"{}")).unwrap_or(json!({}));
+            if v.get("weight").is_some() { ("ok", v["weight"].clone()) } else { ("panic", json!([])) }
+        }
+        Ok(_) => ("abort", json!([])),
+        Err(_) => ("spawn-error", json!([])),
+    };
+    json!({"ev": "deep", "fam": "cost-deep-nesting", "k": k, "bytes": 5 * k + 3, "status": status, "weight": weight, "ms": ms})
 }
